@@ -40,6 +40,14 @@ CHECKS = {
         note="Behaviour of sqlite when killed inside commit() and OS-level durability are library/OS behaviour and are not decided. tables/R04.1.json, R04.2.json hold the tabled exceptions.",
         design="DESIGN.md §4 C04",
     ),
+    "C05": dict(
+        rules="R05.1-R05.3",
+        what="every primitive bound to a literal C function name (~380 bindings) has a C declaration in mypyc/lib-rt of matching arity whose parameter/return types are ABI-compatible with the declared RPrimitives; declared error kinds agree with what the C body can return (ERR_NEVER vs `return NULL`, ERR_FALSE vs truth type, ERR_NEG_INT vs signed int); pass order of compile_scc_to_ir",
+        quant="programs x argument values x optimisation levels x build modes",
+        technique="cross-language table check: Python AST of the primitive registry against clang's JSON AST of lib-rt; CFG ordering of the pass pipeline",
+        note="Nothing about the translation of any construct is decided. Capsule-API slots (object-like macros) and conditionally compiled functions are only checked for existence. Borrow/steal agreement with C bodies would need an ownership analysis of C and is declined.",
+        design="DESIGN.md §4 C05",
+    ),
     "C06": dict(
         rules="R06.1-R06.3, R05.3",
         what="per-Op agreement of sources()/set_sources()/stolen() and PatchVisitor; borrow flag honoured by code generation; who may create IncRef/DecRef and which visit methods the post-refcount passes override; pass order of compile_scc_to_ir",
@@ -119,6 +127,14 @@ CHECKS = {
         technique="syntax-directed guard-chain analysis and table comparison against the language reference",
         note="Trusted: the failure-precondition table for CPython arithmetic in sa/rules/c12.py. Call binding, MRO and version/platform evaluation are value-level algorithms and are not decided.",
         design="DESIGN.md §4 C12",
+    ),
+    "C15": dict(
+        rules="R15.0-R15.2",
+        what="int/float/fixed-width primitive bindings agree with their C signatures and error kinds; every raw C division/modulo IntOp is emitted under a zero(-1)-excluding guard; every Truncate of a possibly out-of-range value is dominated by the two-sided range check",
+        quant="operator x operand type x boundary values",
+        technique="cross-language table check against clang's AST; guard-chain and CFG dominance checks in the IR builder",
+        note="No value is computed: bit-exactness of CPyTagged_* needs operand enumeration or a solver (other technique families).",
+        design="DESIGN.md §4 C15",
     ),
     "C16": dict(
         rules="R16.1-R16.4",
